@@ -624,7 +624,7 @@ func TestC04a(t *testing.T) {
 	big()
 	core.Run(t, core.Spec[CaseA]{
 		Property: "C04", Sub: "a",
-		Rule: "histories of 1-24 operations on a forest of 1-4 agents - directly connected ones registered through the real agent endpoint, pivot agents (chains of depth 1-3) linked through the real, relayed SMB_CONNECT callback; every agent id drawn from {<2^31, >=2^31, 2^31-1, 2^31, 2^32-1, leading zero digits}; every enqueue operation may target any agent, check-ins happen at the directly connected agent of the target's chain, where a pivot agent's task must come out wrapped hop by hop (unwrapped with each hop's key and SmbRecv's frame rules), in queue order with everything else queued there: operator task (TaskPrepare + AddJobToQueue as dispatch.go does, 11 command templates), raw job of a size class {no data, small, 1 MiB, just below / exactly at / just above the limit alone, 31 MiB, 'fill' = cumulative queue size lands on limit-1/limit/limit+1}, relay job (SOCKS write, request id 0), chunked fs-upload (0-8 KiB), check-in with / without GET_JOB; at the end every queue is drained. Oracle per check-in: decoded reply is a prefix of the FIFO model (command, request id, body), no-job reply only if nothing queued, several tasks together never exceed the limit, a cut is maximal; after draining one more check-in is a no-job reply. Non-trivial: some check-in saw >=2 queued tasks, or a size cut, or a single task at/above the limit delivered alone; distinct = (deepest pivot target, an id >= 2^31 on a wrapped hop, max queued bucket, cut, escape, exact-boundary, op-kind set)",
+		Rule: "histories of 1-24 operations on a forest of 1-4 agents - directly connected ones registered through the real agent endpoint, pivot agents (chains of depth 1-3) linked through the real, relayed SMB_CONNECT callback; every agent id drawn from {<2^31, >=2^31, 2^31-1, 2^31, 2^32-1, leading zero digits}; every enqueue operation may target any agent, check-ins happen at the directly connected agent of the target's chain, where a pivot agent's task must come out wrapped hop by hop (unwrapped with each hop's key and SmbRecv's frame rules), in queue order with everything else queued there: operator task (TaskPrepare + AddJobToQueue as dispatch.go does, 11 command templates), raw job of a size class {no data, small, 1 MiB, just below / exactly at / just above the limit alone, 31 MiB, 'fill' = cumulative queue size lands on limit-1/limit/limit+1}, relay job (SOCKS write, request id 0), chunked fs-upload (0-8 KiB), check-in with / without GET_JOB; at the end every queue is drained. Oracle per check-in: decoded reply is a prefix of the FIFO model (command, request id, body), no-job reply only if nothing queued, several tasks together never exceed the limit, a cut is maximal; after draining one more check-in is a no-job reply. Non-trivial: some check-in saw >=2 queued tasks, or a size cut, or a single task at/above the limit delivered alone; distinct = (deepest pivot target, an id >= 2^31 on a wrapped hop, max queued bucket, cut, escape, exact-boundary, op-kind set). SCALE (1 case in 25): one or two 'bulk' operations are inserted at generated places before / between / after the ordinary operations: N small jobs (0-40 data bytes, numbered) queued for one agent of the forest by a loop of the same AddJobToQueue call - operator-path jobs with distinct request ids or SOCKS relay write jobs with request id 0 - N from the threshold-adjacent pool {63,64,65, 127..129, 255..257, 511..513, 999..1001, 1023..1025, 2047..2049, 4095..4097, 8191..8193} (quick tier cut at 8193; thorough up to 16385; weights favour 999-4097); the bulk either stays queued (13 of 20; then, in 3 of 4, the next operation is a raw job of one of the large size classes for the same agent, so that the reply taking the N jobs meets the 30 MB decisions: batch of N + remainder, N + fill to limit-1/limit/limit+1) or has a check-in after every 1/2/3/16/100/1000/1024 jobs (number of check-ins per history at scale); the per-check-in oracle is unchanged and linear in the reply; labels scale:queued-jobs-at-a-check-in / jobs-in-one-reply / jobs-in-one-reply-leaving-a-remainder / check-ins-per-history with buckets 64-129, 255-513, 999-1025, 2047-4097, 8191+",
 		Gen:  genA, Check: checkA, Classify: classifyA,
 		Assumptions: []string{
 			"sizes are compared with a tolerance band: a multi-task reply violates the bound only if its payload without length prefixes exceeds the limit; a cut violates maximality only if reply + next task incl. 12-byte headers stay below the limit (the statement fixes neither the size measure nor >= vs >)",
